@@ -3,7 +3,7 @@ CONSTANTS
   MaxKids = 2
   AttrKinds = {"call", "member", "class", "style", "onClick", "spread", "spreadid", "objlit", "on", "dir", "vmodel", "vmodelc", "vmodels"}
   KidKinds = {"call", "member", "trivial", "text", "elem", "comp", "direlem", "spreadarr", "parencall"}
-  OptCombos = {"TTT", "FFF", "TFF"}
+  OptCombos = {"TTT", "FFF", "TFF", "FTT"}
   AttrKinds3 = {"call", "member", "class", "style", "onClick", "spread", "on", "objlit", "vmodel", "vmodels"}
   KidKinds3 = {"call", "comp", "elem"}
 INIT Init
